@@ -4,7 +4,7 @@
  *     how : new new_raw new_root alloc stack copy static aelem lelem tkey tval rkey rval uitem
  *           it_array it_list it_table it_tree it_range it_slice it_zip it_map rtinst
  *     type: Int Float String Tuple Array Probe          (where the way of obtaining leaves a choice)
- *     op  : del del_raw del_root dealloc dealloc_raw resize assign concat push pop popat
+ *     op  : del del_raw del_root dealloc dealloc_raw resize assign concat push pop popat append printto lookfrom lookempty scanshow
  * For the object obtained: type_of, header allocation class, size(type) bytes written and read back; for every op:
  * exception, was the object's block freed (free() interposed), is the object unchanged, destructor count.
  */
@@ -149,6 +149,11 @@ int main(int argc, char** argv) {
       else if (!strcmp(op, "resize"))      HC_TRY(resize(o, (tt == Tuple && len(o) > 0) ? len(o) - 1 : 1));      /* a Tuple only shrinks, and strictly */
       else if (!strcmp(op, "assign"))      HC_TRY(assign(o, tt == String ? (var)$S("xy") : tt == Tuple ? (var)tuple($I(4)) : (var)$I(1)));
       else if (!strcmp(op, "concat"))      HC_TRY(concat(o, tt == String ? (var)$S("zz") : (var)tuple($I(4))));
+      else if (!strcmp(op, "append"))      HC_TRY(append(o, $S("q")));
+      else if (!strcmp(op, "printto"))     HC_TRY(print_to(o, 0, "%s-%i", $S("zz"), $I(7)));
+      else if (!strcmp(op, "lookfrom"))    HC_TRY(look_from(o, $S("\"xyz\""), 0));
+      else if (!strcmp(op, "lookempty"))   HC_TRY(look_from(o, $S("\"\""), 0));
+      else if (!strcmp(op, "scanshow"))    HC_TRY(scan_from($S("\"pq\" 5"), 0, "%$ %i", o, $I(0)));
       else if (!strcmp(op, "push"))        HC_TRY(push(o, $I(4)));
       else if (!strcmp(op, "pop"))         HC_TRY(pop(o));
       else if (!strcmp(op, "popat"))       HC_TRY(pop_at(o, $I(0)));
